@@ -256,7 +256,8 @@ class CouplingSimulationFixedTimes(CouplingSimulation):
                 fines_states_values[k] = slice_fine_values[-1]
                 coarse_states_values[k] = slice_coarse_values[-1]
 
-        return fines_states_values, coarse_states_values
+        # sums of the jumps of each interval -> running sums over the product dates
+        return np.cumsum(fines_states_values), np.cumsum(coarse_states_values)
 
     def simulate_one_path_with_coupling(self):
         # simulate the jump part first
